@@ -60,6 +60,10 @@ func (ex *Exec) eval(st *State, e ast.Expr, k func(*State, Val)) {
 					x.GoT = ex.typeOf(e.X)
 					k(st2, ex.fieldPath(st2, x, sel.Index()))
 				})
+			case types.MethodExpr:
+				r := ex.fresh("methodexpr", SRef)
+				st.assume(not(eq(r, "0")))
+				k(st, Val{T: r, S: SRef, GoT: ex.typeOf(e)})
 			default:
 				// method value
 				ex.eval(st, e.X, func(st2 *State, _ Val) {
@@ -912,6 +916,9 @@ func resultNames(fc *FuncContract, sig *types.Signature) []string {
 func (ex *Exec) applyContract(st *State, fc *FuncContract, pc *preparedCall, k func(*State, []Val)) {
 	fn := pc.fn
 	sig := fn.Type().(*types.Signature)
+	if pc.sig != nil && sig.TypeParams().Len() > 0 {
+		sig = pc.sig // instantiated signature of a generic callee
+	}
 	calleeShort := shortKey(fc.Key)
 	env := ex.calleeEnv(st, fc, fn, pc.recv, pc.args)
 	env.old = st
